@@ -52,7 +52,8 @@ Init ==
   /\ clpc = "none" /\ clwake = -1 /\ now = 0 /\ mon = MonInit
   /\ refusals = 0 /\ feeds = 0 /\ eofs = 0 /\ spawned = NU
 
-Emit(evs) == mon' = MonRun(mon, evs, 1)
+\* mon.last = the events of this step (what a trace of the real client is matched against)
+Emit(evs) == mon' = [MonRun(mon, evs, 1) EXCEPT !.last = evs]
 AliveR == {c \in Conns : rpc[c] \in {"start", "reading", "cbDisc"}}
 Done(i) == [cpc EXCEPT ![i] = "done"]
 RetEv(i, s) == IF i <= NU THEN <<E("RetConnect", s, now, 0, "", 0, "")>> ELSE <<>>
@@ -195,7 +196,7 @@ PGetLast ==
 PCancelled ==
   /\ pcancel /\ ppc # "dead" /\ ppc' = "dead"
   /\ UNCHANGED <<st, lock, cpc, ck, cconn, cwake, cs, nconn, writer, rpc, rcancel, rconn, rwake, avail, q, pcancel,
-                 clpc, clwake, now, mon, refusals, feeds, eofs, spawned>>
+                 clpc, clwake, now, refusals, feeds, eofs, spawned>> /\ Emit(<<>>)
 
 ----------------------------------------------------------------------------
 (* close() *)
@@ -224,7 +225,9 @@ CallClose ==
                  eofs, spawned>>
 
 ----------------------------------------------------------------------------
-(* timers: only when nothing is ready to run, the earliest first *)
+(* timers: the earliest first; one that is not yet due fires only when nothing is ready to run (time then
+   advances); one already due may fire although a task is ready: the event loop resumes every timer due at the
+   same instant in one iteration, before tasks created during that iteration get their first step *)
 Ready ==
   \/ \E i \in Insts : cpc[i] = "spawned" \/ (cpc[i] = "opening" /\ cs[cconn[i]] \in {"open", "eof", "refused"})
   \/ \E r \in Conns : \/ rpc[r] = "start"
@@ -235,19 +238,20 @@ Sleepers == {cwake[i] : i \in {j \in Insts : cwake[j] >= 0}} \cup {rwake[r] : r 
             \cup (IF clwake >= 0 THEN {clwake} ELSE {})
 Earliest(w) == w >= 0 /\ \A x \in Sleepers : w <= x
 Tick(w) == now' = IF w > now THEN w ELSE now
+Due(w) == Earliest(w) /\ (~Ready \/ w <= now)
 
 CWake(i) ==
-  /\ ~Ready /\ Earliest(cwake[i]) /\ Tick(cwake[i])
+  /\ Due(cwake[i]) /\ Tick(cwake[i])
   /\ CASE cpc[i] = "backoff" ->
             /\ LET evs0 == <<>> IN
                  IF st = "X"
-                 THEN /\ cpc' = Done(i) /\ lock' = FALSE /\ mon' = MonRun(mon, [k \in 1..Len(RetEv(i, st)) |-> [RetEv(i, st)[k] EXCEPT !.t = now']], 1)
+                 THEN /\ cpc' = Done(i) /\ lock' = FALSE /\ Emit([k \in 1..Len(RetEv(i, st)) |-> [RetEv(i, st)[k] EXCEPT !.t = now']])
                       /\ UNCHANGED <<cs, nconn, cconn>>
                  ELSE /\ nconn < MaxConn
                       /\ nconn' = nconn + 1 /\ cs' = [cs EXCEPT ![nconn + 1] = "pending"]
                       /\ cconn' = [cconn EXCEPT ![i] = nconn + 1] /\ cpc' = [cpc EXCEPT ![i] = "opening"]
                       /\ UNCHANGED lock
-                      /\ mon' = MonStep(mon, E("Open", st, now', nconn + 1, "", 0, ""))
+                      /\ Emit(<<E("Open", st, now', nconn + 1, "", 0, "")>>)
             /\ cwake' = [cwake EXCEPT ![i] = -1]
             /\ UNCHANGED <<st, rpc, rcancel>>
        [] cpc[i] = "cbConn" ->
@@ -258,13 +262,12 @@ CWake(i) ==
   /\ UNCHANGED <<ck, writer, rconn, rwake, avail, q, ppc, pcancel, clpc, clwake, refusals, feeds, eofs, spawned>>
 
 RWake(r) ==
-  /\ ~Ready /\ Earliest(rwake[r]) /\ Tick(rwake[r]) /\ rpc[r] = "cbDisc"
+  /\ Due(rwake[r]) /\ Tick(rwake[r]) /\ rpc[r] = "cbDisc"
   /\ rwake' = [rwake EXCEPT ![r] = -1] /\ rpc' = [rpc EXCEPT ![r] = "done"] /\ SpawnConnect
-  /\ UNCHANGED <<st, lock, ck, cconn, cwake, cs, nconn, writer, rcancel, rconn, avail, q, ppc, pcancel, clpc, clwake,
-                 mon, refusals, feeds, eofs>>
+  /\ UNCHANGED <<st, lock, ck, cconn, cwake, cs, nconn, writer, rcancel, rconn, avail, q, ppc, pcancel, clpc, clwake, refusals, feeds, eofs>> /\ Emit(<<>>)
 
 ClWake ==
-  /\ ~Ready /\ Earliest(clwake) /\ Tick(clwake)
+  /\ Due(clwake) /\ Tick(clwake)
   /\ UNCHANGED st
   /\ CASE clpc = "cb" ->
             LET shutNow == writer # 0 /\ cs[writer] # "shut"
@@ -281,7 +284,7 @@ ClWake ==
        [] clpc = "sleep1" ->
             /\ UNCHANGED <<cs, rcancel>>
             /\ IF ppc # "dead"
-               THEN /\ pcancel' = TRUE /\ clpc' = "sleep2" /\ clwake' = now' + 10 /\ UNCHANGED mon
+               THEN /\ pcancel' = TRUE /\ clpc' = "sleep2" /\ clwake' = now' + 10 /\ Emit(<<>>)
                ELSE /\ clpc' = "done" /\ clwake' = -1 /\ UNCHANGED pcancel
                     /\ Emit(<<E("RetClose", st, now', 0, "", 0, "")>>)
        [] clpc = "sleep2" ->
@@ -295,16 +298,16 @@ ClWake ==
 GwAccept(c) ==
   /\ cs[c] = "pending" /\ cs' = [cs EXCEPT ![c] = "open"]
   /\ UNCHANGED <<st, lock, cpc, ck, cconn, cwake, nconn, writer, rpc, rcancel, rconn, rwake, avail, q, ppc, pcancel,
-                 clpc, clwake, now, mon, refusals, feeds, eofs, spawned>>
+                 clpc, clwake, now, refusals, feeds, eofs, spawned>> /\ Emit(<<>>)
 GwRefuse(c) ==
   /\ cs[c] = "pending" /\ refusals < MaxRefuse /\ refusals' = refusals + 1
   /\ cs' = [cs EXCEPT ![c] = "refused"]
   /\ UNCHANGED <<st, lock, cpc, ck, cconn, cwake, nconn, writer, rpc, rcancel, rconn, rwake, avail, q, ppc, pcancel,
-                 clpc, clwake, now, mon, feeds, eofs, spawned>>
+                 clpc, clwake, now, feeds, eofs, spawned>> /\ Emit(<<>>)
 Feed(c) ==
   /\ cs[c] = "open" /\ feeds < MaxFeed /\ feeds' = feeds + 1 /\ avail' = [avail EXCEPT ![c] = @ + 1]
   /\ UNCHANGED <<st, lock, cpc, ck, cconn, cwake, cs, nconn, writer, rpc, rcancel, rconn, rwake, q, ppc, pcancel,
-                 clpc, clwake, now, mon, refusals, eofs, spawned>>
+                 clpc, clwake, now, refusals, eofs, spawned>> /\ Emit(<<E("Feed", st, now, 0, "", c, "")>>)
 Eof(c) ==
   /\ cs[c] = "open" /\ eofs < MaxEof /\ eofs' = eofs + 1 /\ cs' = [cs EXCEPT ![c] = "eof"]
   /\ Emit(<<E("Fault", st, now, 0, "", c, "")>>)
